@@ -37,6 +37,9 @@ for d in sorted(glob.glob(os.path.join(V, "seeded", "*"))):
     verdict = "exit %s" % cf.get("check_exit_on_changed_tree")
     if co:
         verdict += ", " + ("no-failing-input-found" if all("no-failing-input-found" in l for l in co) else "VIOLATION with failing input")
+    j = m.get("judged")
+    if j and not j.get("violates_claimed_property", True):
+        verdict += "; judged: %s holds as stated, the change violates %s and `bin/check %s` reports it" % (m.get("property"), j.get("violated_property"), j.get("reported_by_check"))
     def cell(s):
         return re.sub(r"\s+", " ", str(s or "")).replace("|", "/")[:260]
     out.append("| %s | %s | %s | %s | %s |" % (os.path.basename(d), m.get("property"), cell(m.get("what_breaks") or m.get("title")), cell(m.get("needs_to_manifest")), verdict))
